@@ -12,7 +12,12 @@
 EXTENDS Forest, Json
 
 CONSTANTS MaxN, MaxAdds, MaxStack, MaxUnd, MaxFr, MaxRst, Acts,
-          TrackLast   \* TRUE: the kind of the last action is part of the state (see Step)
+          TrackLast,  \* TRUE: the kind of the last action is part of the state (see Step)
+          WideExtra,  \* wide configurations: 1 = the remembered run may be accompanied by one more remembered leaf
+          MinN        \* wide configurations (MinN < 99): every forest of MinN..MaxN-1 leaves, all alive, in which the
+                      \* instance remembers a run of consecutive leaves (plus at most one more) is an initial state;
+                      \* one block from each (deleting one remembered leaf or the remembered leaves of one aligned
+                      \* subtree) and its undo
 
 VARIABLES n, live, cached, stack, marks, hist
 
@@ -48,8 +53,24 @@ Obs(x, lv, C) ==
         \* the canonical proof of everything it remembers
         pf     |-> JProof(CanonProofIn(x, nds, cs)) ]
 
-Init == /\ n = 0 /\ live = {} /\ cached = {} /\ stack = <<>>
-        /\ marks = [und |-> 0, fr |-> 0, rst |-> 0, last |-> "-"] /\ hist = <<>>
+Wide == MinN < 99
+
+\* the block that builds an all-live forest of x leaves remembering C
+InitStep(x, C) ==
+  [ a |-> "mod", d |-> <<>>, k |-> x, rem |-> AscSeq(C),
+    pf |-> JProof(CanonProof(0, {}, <<>>)), pre |-> Roots(0, {}), post |-> Roots(x, 0..(x - 1)) ]
+
+Runs(x) == {a..b : a \in 0..(x - 1), b \in 0..(x - 1)} \ {{}}
+Aligned(x) == UNION {{(i * (2^h))..(i * (2^h) + 2^h - 1) : i \in 0..(x \div (2^h))} : h \in 1..TreeRows(x)}
+
+Init == /\ stack = <<>>
+        /\ marks = [und |-> 0, fr |-> 0, rst |-> 0, last |-> "-"]
+        /\ IF ~Wide
+           THEN n = 0 /\ live = {} /\ cached = {} /\ hist = <<>>
+           ELSE /\ n \in MinN..(MaxN - 1)
+                /\ live = 0..(n - 1)
+                /\ cached \in {R \cup E : R \in Runs(n), E \in {{}} \cup (IF WideExtra = 1 THEN {{e} : e \in 0..(n - 1)} ELSE {})}
+                /\ hist = <<InitStep(n, cached)>>
 
 Push(rec) == IF MaxStack = 0 THEN <<>>
              ELSE SubSeq(<<rec>> \o stack, 1, IF Len(stack) + 1 > MaxStack THEN MaxStack ELSE Len(stack) + 1)
@@ -67,11 +88,17 @@ Step(step, n2, lv2, c2, stk2, m2) ==
   /\ Emit(step, Obs(n2, lv2, c2))
 
 \* a block: only remembered leaves can be deleted from a partial forest
+DelChoices ==
+  IF ~Wide THEN SUBSET cached
+  ELSE {D \in SUBSET cached : Cardinality(D) <= 1}
+         \cup {A \cap cached : A \in {B \in Aligned(n) : B \subseteq 0..(n - 1)}}
+
 Modify ==
   /\ "mod" \in Acts
-  /\ \E D \in SUBSET cached, k \in 0..MaxAdds :
+  /\ (IF Wide THEN stack = <<>> /\ marks.und = 0 ELSE TRUE)
+  /\ \E D \in DelChoices, k \in 0..MaxAdds :
        /\ n + k <= MaxN
-       /\ \E Rem \in SUBSET (0..(k-1)) :
+       /\ \E Rem \in (IF Wide THEN {{}} ELSE SUBSET (0..(k-1))) :
             LET n2  == n + k
                 lv2 == (live \ D) \cup (n..(n + k - 1))
                 c2  == (cached \ D) \cup {n + i : i \in Rem}
